@@ -109,3 +109,43 @@ func DanglingMarkerHonoured(pre, post map[uint64]bool, markers []uint64) bool {
 	}
 	return false
 }
+
+// SeriesRefsInWAL returns every series ref that a series record of the checkpoint or the WAL gives
+// to the label set k (a series re-created after a restart has several; WBL records may use any).
+func SeriesRefsInWAL(dir, k string) []uint64 {
+	seen := map[uint64]bool{}
+	dec := record.NewDecoder(labels.NewSymbolTable(), tsdbx.NopLogger())
+	read := func(d string) {
+		sr, err := wlog.NewSegmentsReader(d)
+		if err != nil {
+			return
+		}
+		defer sr.Close()
+		r := wlog.NewReader(sr)
+		for r.Next() {
+			rec := r.Record()
+			if dec.Type(rec) != record.Series {
+				continue
+			}
+			ss, err := dec.Series(rec, nil)
+			if err != nil {
+				return
+			}
+			for _, x := range ss {
+				if x.Labels.String() == k {
+					seen[uint64(x.Ref)] = true
+				}
+			}
+		}
+	}
+	wal := filepath.Join(dir, "wal")
+	if cp, _, err := wlog.LastCheckpoint(wal); err == nil {
+		read(cp)
+	}
+	read(wal)
+	var out []uint64
+	for r := range seen {
+		out = append(out, r)
+	}
+	return out
+}
